@@ -54,7 +54,7 @@ class C02(PropBase):
                       "sweep_single_cuts", "sweep_pair_cuts", "client_subject", "server_subject", "four_octet_outer_length",
                       "sixty_plus_pdus_in_one_call", "two_unknown_result_codes_in_stream", "stream_over_256KiB",
                       "flag_control_with_and_without_value", "other_session_between_chunks", "duplicate_request_ids_in_stream",
-                      "five_plus_length_octets")
+                      "five_plus_length_octets", "recursion_edge_probe")
 
     # ------------------------------------------------------------------ generation of prepared session + stream
 
@@ -434,6 +434,8 @@ class C02(PropBase):
             x["snap"] = x["snap_full"]
             raise Violation(P, "returned-value-mutated", "message #%d changed after it was returned (later deliveries / buffer reuse): was %s, "
                             "is now %s" % (i, _short(x["snap"][i]), _short(now[i])))
+        if self.idx % 97 == 0:
+            self._recursion_edge(st)
         self._kinds = {m["id"]: m["t"] for m in st.w.init["expected"]} if st.w.init["role"] == "s" else {}
         self._same_end_state(S.real, T.real, x["cands"], st.w.init["role"], "chunked delivery")
         self._sweep(st)
@@ -484,6 +486,51 @@ class C02(PropBase):
             b = rr.randint(a + 1, min(n - 1, a + rr.choice([1, 2, 3, 8, 40, n])))
             self._cut_run(st, [a, b], T, role)
             st.hit("sweep_pair_cuts")
+
+    def _recursion_edge(self, st):
+        """The deepest filter nesting a fresh server accepts must not depend on the chunking: find it for a single delivery
+        (bisection) and compare with two-chunk and byte-sized deliveries at that depth and one beyond."""
+        def accepted(depth, style):
+            srv = sansldap.LDAPServer()
+            pdu = rfc4511.deep_not_search(1, depth)
+            if style == "single":
+                chunks = [pdu]
+            elif style == "two":
+                chunks = [pdu[:7], pdu[7:]]
+            elif style == "tail":
+                chunks = [pdu[:-1], pdu[-1:]]
+            else:
+                chunks = [pdu[: len(pdu) // 2], pdu[len(pdu) // 2:]]
+            got = []
+            try:
+                for ch in chunks:
+                    got.extend(srv.receive(ch))
+            except sansldap.ProtocolError:
+                return False
+            return len(got) == 1
+
+        def deeper(k, depth, style):
+            # the same question asked from k frames further down the caller's stack (one nesting level of a filter costs the
+            # library several frames, so the edge has to be approached from more than one caller depth)
+            return accepted(depth, style) if k == 0 else deeper(k - 1, depth, style)
+
+        lo, hi = 8, 4000
+        while lo < hi:
+            mid = (lo + hi + 1) // 2
+            if accepted(mid, "single"):
+                lo = mid
+            else:
+                hi = mid - 1
+        st.hit("recursion_edge_probe")
+        for extra in range(0, 8):
+          for depth in (lo - 1, lo, lo + 1):
+            ref = deeper(extra, depth, "single")
+            for style in ("two", "tail", "half"):
+                if deeper(extra, depth, style) != ref:
+                    raise Violation(P, "single-delivery-differs", "a SearchRequest whose filter is nested %d deep (at the edge of what the "
+                                    "interpreter stack allows, %d extra caller frames) is %s when delivered in one call and %s when "
+                                    "delivered in two calls (%s)" % (depth, extra, "accepted" if ref else "refused",
+                                                                     "refused" if ref else "accepted", style))
 
     def _cut_run(self, st, cuts, T, role):
         x = st.x
